@@ -73,7 +73,7 @@ TEXTS = {
                            "carrying the final description, writes must reach the claiming master, reads only it or its usable replicas, and unclaimed slots must be refused",
                 level_note=_sim_note + " Yield-point interleavings of the refresh goroutine (hook points exist in /repo) are not driven yet; helper goroutines run to quiescence between driver actions."),
     "C15": dict(design_ref="6/C15", technique=_T + "fault enumeration over connection-loss phase x pipeline position x request kind; bounded liveness in a fair settle phase",
-                level_text="backend connection FIN/RST before the fragment is read / after it is read / after k reply bytes, a peer reset that the proxy's next write meets without a prior hang-up event, node down and up, redirect to an unknown node; after the last fault (fair settle "
+                level_text="backend connection FIN/RST before the fragment is read / after it is read / after k reply bytes, a peer reset that the proxy's next write meets without a prior hang-up event, node down and up, redirect to an unknown node; a client that starts once every fault has been noticed and every node is back must be served (no proxy error); after the last fault (fair settle "
                            "phase, timeout+10 fake seconds) every request has a reply or its connection was closed by the proxy, data replies are still right, and a later client is served over a new connection",
                 level_note=_sim_note),
     "C16": dict(design_ref="6/C16", technique=_T + "stalled/late backends on the fake clock; position-exact reply oracle with deadline-relative lateness rule",
